@@ -1,0 +1,169 @@
+//go:build verif
+
+// Contracts and ghost specification functions for the deductive verifier in
+// /verif (govc). This file is only compiled with -tags verif; it adds no code
+// to the normal build. Lines starting with "//@" are machine-checked contracts.
+
+package strutil
+
+// ---- spec functions ---------------------------------------------------------
+
+//@ func specOrd
+//@   pure
+
+func specOrd(c int) int {
+	if c < 0 || c > 255 {
+		return 0
+	}
+	return chOrder[c]
+}
+
+//@ func specChr
+//@   pure
+
+// byte of s at i, 0 past the end
+func specChr(s string, i int) int {
+	if i >= 0 && i < len(s) {
+		return int(s[i])
+	}
+	return 0
+}
+
+//@ func specCmpStr
+//@   pure
+
+// comparison of as and bs from position i on, in chOrder
+func specCmpStr(a, b string, i int) int {
+	if i < 0 || i >= max(len(a), len(b)) {
+		return 0
+	}
+	x, y := specOrd(specChr(a, i)), specOrd(specChr(b, i))
+	if x < y {
+		return -1
+	}
+	if x > y {
+		return 1
+	}
+	return specCmpStr(a, b, i+1)
+}
+
+//@ func isDigit
+//@   pure
+
+func isDigit(c int) bool { return '0' <= c && c <= '9' }
+
+//@ func specLeadZ
+//@   pure
+
+// number of leading '0' bytes of s from i on
+func specLeadZ(s string, i int) int {
+	if i < 0 || i >= len(s) || s[i] != '0' {
+		return 0
+	}
+	return 1 + specLeadZ(s, i+1)
+}
+
+//@ func specLex
+//@   pure
+
+// lexicographic byte comparison of a and b from i on (equal lengths intended)
+func specLex(a, b string, i int) int {
+	if i < 0 || i >= len(a) || i >= len(b) {
+		return 0
+	}
+	if a[i] > b[i] {
+		return 1
+	}
+	if a[i] < b[i] {
+		return -1
+	}
+	return specLex(a, b, i+1)
+}
+
+//@ func specCmpNum
+//@   pure
+
+// numeric comparison of two digit strings: strip leading zeroes, then length, then bytes
+func specCmpNum(a, b string) int {
+	za, zb := specLeadZ(a, 0), specLeadZ(b, 0)
+	la, lb := len(a)-za, len(b)-zb
+	if la > lb {
+		return 1
+	}
+	if la < lb {
+		return -1
+	}
+	return specLex(a[za:], b[zb:], 0)
+}
+
+//@ func specRunEnd
+//@   pure
+
+// end of the maximal run, starting at i, of bytes whose digit-ness is 'digit'
+func specRunEnd(s string, i int, digit bool) int {
+	if i < 0 || i >= len(s) || isDigit(int(s[i])) != digit {
+		return i
+	}
+	return specRunEnd(s, i+1, digit)
+}
+
+//@ func specFragLen
+//@   pure
+
+func specFragLen(s string) int {
+	if len(s) == 0 {
+		return 0
+	}
+	return specRunEnd(s, 1, isDigit(int(s[0])))
+}
+
+//@ func specHasEpoch
+//@   pure
+
+// s matches ^[0-9]+:
+func specHasEpoch(s string) bool {
+	n := specRunEnd(s, 0, true)
+	return n > 0 && n < len(s) && s[n] == ':'
+}
+
+//@ func specSub
+//@   pure
+
+// fragment-wise comparison (what compareSubversion computes)
+func specSub(a, b string) int {
+	fa, fb := specFragLen(a), specFragLen(b)
+	if fa == 0 && fb == 0 {
+		return 0
+	}
+	var r int
+	if fa > 0 && fb > 0 && isDigit(int(a[0])) && isDigit(int(b[0])) {
+		r = specCmpNum(a[:fa], b[:fb])
+	} else {
+		r = specCmpStr(a[:fa], b[:fb], 0)
+	}
+	if r != 0 {
+		return r
+	}
+	return specSub(a[fa:], b[fb:])
+}
+
+// ---- contracts on the real functions ------------------------------------------
+
+//@ func max
+//@   props C33
+//@   ensures result >= a && result >= b && (result == a || result == b)
+
+//@ func cmpString
+//@   props C33
+//@   ensures result == specCmpStr(as, bs, 0)
+//@   loop 0: invariant 0 <= i && specCmpStr(as, bs, 0) == specCmpStr(as, bs, i)
+
+//@ func trimLeadingZeroes
+//@   props C33
+//@   ensures result == a[specLeadZ(a, 0):]
+//@   loop 0: invariant 0 <= i && i <= len(a) && specLeadZ(a, 0) == i + specLeadZ(a, i)
+
+//@ func matchEpoch
+//@   props C33
+//@   ensures result == specHasEpoch(a)
+//@   loop 0: invariant 1 <= i && i <= len(a) && specRunEnd(a, 0, true) == specRunEnd(a, i, true)
